@@ -929,6 +929,14 @@ def rule_npt_never_exceeds_its_maximum(eng, rep, rule="C18-10.number-of-points-n
             if not (isinstance(e, ast.Call) and isinstance(e.func, ast.Name) and e.func.id == "min"):
                 return False
             for a in e.args:
+                if isinstance(a, ast.Name):         # `room = params("restarts.max_npt") - npt(); min(amt, room)`
+                    # (the defining expression itself, not a copy: resolved-call tables are keyed by node identity)
+                    try:
+                        dd = [fcfg.ast_of(x) for x in fcfg.defs_reaching(loop.iter, a.id)]
+                    except Exception:
+                        dd = []
+                    if len(dd) == 1 and isinstance(dd[0], ast.Assign) and len(dd[0].targets) == 1 and isinstance(dd[0].targets[0], ast.Name):
+                        a = dd[0].value
                 if isinstance(a, ast.BinOp) and isinstance(a.op, ast.Sub) and mentions_max(a.left) and ("npt" in ekey(a.right) or "num_pts" in ekey(a.right)):
                     return True
             return False
